@@ -38,19 +38,19 @@ Local Notation log := (list (io irec)).
 
 Section Dir.
   Definition bgood (st0 : option sfile) (L : log) (d : dirst) (f : nat) : Prop :=
-    good L d f \/ (exists s, st0 = Some s /\ f = 0 /\ nth_error (d_files d) 0 = Some (Some s, true)).
+    good L d f \/ (exists s, st0 = Some s /\ f = 0 /\ nth_error (d_files d) 0 = Some (Some s, true) /\ dlw L = None).
 
   Lemma bgood_ext st0 L d e d' f : bgood st0 L d f ->
     (forall x, nth_error (d_files d) f = Some x -> nth_error (d_files d') f = Some x) ->
     dlw (L ++ [e]) = dlw L -> bgood st0 (L ++ [e]) d' f.
   Proof.
-    intros [G|(s & E1 & E2 & E3)] Hf Hl; [left; eapply good_ext; eauto|].
-    right. exists s. subst f. repeat split; auto.
+    intros [G|(s & E1 & E2 & E3 & E4)] Hf Hl; [left; eapply good_ext; eauto|].
+    right. exists s. subst f. repeat split; auto. rewrite Hl. exact E4.
   Qed.
 
   Lemma bgood_lt st0 L d f : bgood st0 L d f -> f < length (d_files d).
   Proof.
-    intros [(st & pos & G1 & _)|(s & _ & E2 & E3)]; [eapply E.nth_lt; eauto|].
+    intros [(st & pos & G1 & _)|(s & _ & E2 & E3 & _)]; [eapply E.nth_lt; eauto|].
     subst f. eapply E.nth_lt; eauto.
   Qed.
 
@@ -185,7 +185,7 @@ End Dir.
     attempt whose directory fsync completed) *)
 Theorem dir_survivor_any (base : medium irec) (L : log) ch x : shaped L ->
   m_state (crash_medium base L ch) = Some x ->
-  m_state base = Some x \/
+  (m_state base = Some x /\ dlw L = None) \/
   exists pos, nth_error L pos = Some (IoWriteNew x) /\ forall lw, dlw L = Some lw -> lw <= pos.
 Proof.
   intros Hs. pose proof (DI'_run (m_state base) (m_new base) L Hs) as D. unfold crash_medium.
@@ -193,9 +193,9 @@ Proof.
   destruct (snd (fold_left ns_apply (firstn (c_dirk ch) (d_pend d)) (d_dnew d, d_dstate d))) as [f|] eqn:Ef;
     cbn [m_state]; [|discriminate].
   intros H. inv H.
-  destruct (di_good' _ _ _ D f) as [(st & pos & G1 & G2 & G3)|(s & E1 & E2 & E3)]; [exists (c_dirk ch); exact Ef| |].
+  destruct (di_good' _ _ _ D f) as [(st & pos & G1 & G2 & G3)|(s & E1 & E2 & E3 & E4)]; [exists (c_dirk ch); exact Ef| |].
   - right. exists pos. unfold file_content. rewrite G1. auto.
-  - left. subst f. unfold file_content. rewrite E3. exact E1.
+  - left. subst f. unfold file_content. rewrite E3. auto.
 Qed.
 
 (** ------------------------------------------------------------------ *)
@@ -265,7 +265,7 @@ Proof.
     destruct Hin as [pos Hpos]. apply nth_firstn in Hpos. exists pos. exact Hpos. }
   destruct (m_state (crash_medium base (firstn n (cs_log c)) ch)) as [x|] eqn:Ex.
   2:{ cbn. split; [constructor|]. intros slot r _ Hin. contradiction. }
-  destruct (dir_survivor_any _ _ _ _ Shn Ex) as [Eb|(q & Hq & _)].
+  destruct (dir_survivor_any _ _ _ _ Shn Ex) as [[Eb _]|(q & Hq & _)].
   - (* the state file the life started with survived *)
     rewrite <- Eb. split; [exact Hnd|].
     intros slot r Hin Hs. destruct (Hidx _ _ Hin) as [Hb|(pos & Hp & Hpos)]; [left; eauto|].
